@@ -248,3 +248,18 @@ Definition agree_exc (tol : Q) (r : exc res) (err : nat) (obs : option Q) : bool
 Definition agree_all (tol : Q) (disc : nat -> Q) (k : option nat) (recs : ilist) (t : tlist)
     (ms : list metric) (obs : list (nat * option Q)) : bool :=
   all2 (fun m o => agree_exc tol (measure m disc k recs t) (fst o) (snd o)) ms obs.
+
+(* ---------------------------------------------------------------------------------------- *)
+(* A recommendation list with an EXPLICIT rank column: (rank, id) entries in list order.     *)
+(* "The first k recommendations" are the first k entries (rl_first); rank_cut is the other    *)
+(* reading (keep the entries whose stored rank is <= k), which agrees for the implicit ranks  *)
+(* 1..n only (Props/C06.v: first_k_is_positional).                                            *)
+(* ---------------------------------------------------------------------------------------- *)
+Definition rl_ids (l : list (Z * Z)) : list Z := map snd l.
+Definition rl_first (k : option nat) (l : list (Z * Z)) : list (Z * Z) :=
+  match k with Some n => firstn n l | None => l end.
+Definition rank_cut (n : nat) (l : list (Z * Z)) : list Z :=
+  map snd (filter (fun e => (fst e <=? Z.of_nat n)%Z) l).
+Fixpoint implicit_from (r : Z) (ids : list Z) : list (Z * Z) :=
+  match ids with [] => [] | x :: tl => (r, x) :: implicit_from (r + 1) tl end.
+
